@@ -9,6 +9,8 @@ import ScnVerif.Model.Filtering
 * `c19.contents <f|i> <minN> <atol> <n> <x…> <y…> <tok₁ … tokₙ>` → `ok tok,tok,… tok,…` : the bins with the opaque
   per-point records (further coordinates, variance, mask flags) they hold
 * `c19.collapsem <f|i> <minN> <atol> <n> <x…> <y…> <var…> <masked 0|1 …>` → `ok mean:variance …` (masked points skipped)
+* `c19.interval <f|i> <minN> <atol> <n> <x…> <y…> <f|i> <e₁ … eₙ>` → `ok low:high …` : `[min, next(max))` of ANOTHER
+  per-point coordinate `e` over each plateau (`collapse_plateaus(coord=…)`)
 * `c19.slopes <f|i> <n> <x…> <y…>` → slopes as hex bit patterns
 * `c19.groupids <atol> <f|i> <n> <x…> <y…>` → group id per point
 * `c19.inphase <ref> <rtol> <x₁ …>` → indices kept
@@ -74,6 +76,22 @@ def handle : List String → Option String
       | .ok bins => some (" ".intercalate ("ok" :: bins.map (fun r =>
           let mv := collapseMasked ys vars masked r
           s!"{f64Hex mv.1}:{f64Hex mv.2}")))
+  | "c19.interval" :: kind :: minN :: atol :: n :: rest => do
+      let minN ← minN.toNat?
+      let atol ← f64? atol
+      let n ← n.toNat?
+      if rest.length ≠ 3 * n + 1 then none else
+      let (c, ys) ← split? kind n (rest.take (2 * n))
+      let ekind ← (rest.drop (2 * n)).head?
+      let e ← coords? ekind (rest.drop (2 * n + 1))
+      match findPlateaus c ys atol minN with
+      | .error (.coord, _) => some "err:coord"
+      | .error (.runtime, bad) => some ("err:runtime " ++ natList bad)
+      | .ok bins => some (" ".intercalate ("ok" :: bins.map (fun r =>
+          let k := collapse e ys r
+          match e with
+          | .f _ => s!"{f64Hex k.lowF}:{f64Hex k.highF}"
+          | .i _ => s!"{k.lowI}:{k.highI}")))
   | "c19.slopes" :: kind :: n :: rest => do
       let n ← n.toNat?
       let (c, ys) ← split? kind n rest
